@@ -304,7 +304,16 @@ def gen_item(job):
     # v2: the package-root layout must hold the same tree below <outdir>/<packageRoot>
     if gen == "v2" and not res["fails"]:
         t = os.path.join(scdir, "pkgroot-%s-%s" % (gen, e["Dir"]))
+        # (generator-owned leftovers of an earlier layout outside <outdir>/<packageRoot>: cleaning covers the whole
+        # output directory, so they must be gone afterwards)
+        stale = [os.path.join(t, "oldroot", "pkg", "Old.gr.go"), os.path.join(t, "Stray.gr.go")]
+        for pth in stale:
+            os.makedirs(os.path.dirname(pth), exist_ok=True)
+            open(pth, "w").write("package old\n")
         rc, out = gen_once(e, rots[0], t, with_pkgroot=True)
+        left = [os.path.relpath(pth, t) for pth in stale if os.path.exists(pth)]
+        if rc == 0 and left:
+            res["fails"].append(("package-root-layout", "generator-owned files outside <outdir>/<packageRoot> survive cleaning and regeneration with the package-root layout: %s" % ", ".join(left)))
         res["runs"] += 1
         res["pkgroot"] = True
         if rc != 0:
